@@ -35,6 +35,33 @@ pub fn dump_mir<'tcx>(cx: &mut Cx<'tcx>, ldid: LocalDefId) -> J {
         ]));
     }
 
+    // locals that are assigned a string constant (messages of expect / panic)
+    let mut str_consts = vec![];
+    for data in body.basic_blocks.iter() {
+        for st in &data.statements {
+            if let StatementKind::Assign(b) = &st.kind {
+                let (place, rv) = &**b;
+                if place.projection.is_empty() {
+                    // simple aliases `_a = copy _b`, `_a = move _b`, `_a = &(*_b)`: lets messages be followed
+                    let d = format!("{:?}", rv);
+                    let t = d.trim_start_matches("copy ").trim_start_matches("move ").trim_start_matches("&(*").trim_start_matches('&').trim_end_matches(')');
+                    if t.starts_with('_') && t[1..].chars().all(|c| c.is_ascii_digit()) && !t[1..].is_empty() {
+                        str_consts.push(J::A(vec![J::S(format!("{:?}", place)), J::S(format!("@{}", t))]));
+                    }
+                }
+                if let Rvalue::Use(Operand::Constant(c), ..) = rv {
+                    let d = format!("{:?}", c);
+                    if let Some(start) = d.find("const \"") {
+                        if place.projection.is_empty() {
+                            let text = d[start + 7..].trim_end_matches('"').to_string();
+                            str_consts.push(J::A(vec![J::S(format!("{:?}", place)), J::S(text)]));
+                        }
+                    }
+                }
+            }
+        }
+    }
+
     let mut blocks = vec![];
     for (_bb, data) in body.basic_blocks.iter_enumerated() {
         let mut o: Vec<(&'static str, J)> = vec![("cleanup", J::B(data.is_cleanup))];
@@ -168,6 +195,7 @@ pub fn dump_mir<'tcx>(cx: &mut Cx<'tcx>, ldid: LocalDefId) -> J {
     J::O(vec![
         ("arg_count", J::U(body.arg_count as u128)),
         ("locals", J::A(locals)),
+        ("str_consts", J::A(str_consts)),
         ("blocks", J::A(blocks)),
     ])
 }
